@@ -54,29 +54,43 @@ def lengths_program(rng, t, n):
 
 
 def sizes_program(rng):
-    """returns (source, [(label, ltype-sexp)])"""
+    """returns (source, [(label, ltype-sexp | ("same", index of an earlier query))]).  Structures refer to each other by value,
+    in literal-length and NAMED-length arrays; constants hold `|:S|` and serve as array lengths in turn; the top-level
+    declarations come in a shuffled order (the compiler has to order them by dependency itself)."""
     structs = []     # (name, kind, [(fname, src type, ltype sexp)], ltype sexp)
     queries = []
+    consts = []      # source lines of constants
 
     def member(depth):
         c = rng.below(100)
-        if c < 55 or depth <= 0:
+        if c < 50 or depth <= 0:
             t = rng.pick(list(PRIMS) + ["bool"])
             return t, ("bool" if t == "bool" else "(int %d)" % PRIMS[t])
-        if c < 65:
+        if c < 58:
             t = rng.pick(list(PRIMS))
             return "&" + t, "ptr"
-        if c < 85:
+        if c < 72:
             k = rng.below(5)
             st, lt = member(depth - 1)
             return "[%d]%s" % (k, st), "(arr %d %s)" % (k, lt)
+        if c < 86:
+            # an array whose length is a named constant
+            k = rng.below(5)
+            if structs and rng.chance(3, 5):
+                s_ = structs[-1] if rng.chance(1, 2) else rng.pick(structs)
+                st, lt = s_[0], s_[3]
+            else:
+                st, lt = member(depth - 1)
+            cname = "LEN%d" % len(consts)
+            consts.append("const %s: usize = %d;" % (cname, k))
+            return "[%s]%s" % (cname, st), "(arr %d %s)" % (k, lt)
         if structs:
             s = rng.pick(structs)
             return s[0], s[3]
         return "u8", "(int 1)"
-    for i in range(2 + rng.below(4)):
+    for i in range(2 + rng.below(6)):
         name = "S%d" % i
-        if rng.chance(1, 3):
+        if rng.chance(1, 4):
             ms = [rng.pick(WORDMEMBERS) for _ in range(rng.below(5))]
             sizes = [1 if m == "bool" else PRIMS[m] for m in ms]
             need = int(run_model(["wordsize\t(%s)" % " ".join(map(str, sizes))])[0])
@@ -90,28 +104,47 @@ def sizes_program(rng):
         for j in range(rng.below(6)):
             st, lt = member(2)
             members.append(("m%d" % j, st, lt))
+        if structs and rng.chance(1, 2):
+            # chains: this structure holds the previous one by value
+            members.insert(rng.below(len(members) + 1), ("prev", structs[-1][0], structs[-1][3]))
         structs.append((name, "struct", members, "(struct%s)" % "".join(" " + m[2] for m in members)))
-    out = []
+    blocks = []
     for name, kind, members, lt in structs:
-        out.append("%s %s" % (kind, name))
-        out.append("{")
+        b = ["%s %s" % (kind, name), "{"]
         for fn, st, _ in members:
-            out.append("\t%s: %s," % (fn, st))
-        out.append("}")
-    out.append("fn main()")
-    out.append("{")
+            b.append("\t%s: %s," % (fn, st))
+        b.append("}")
+        blocks.append("\n".join(b))
+    body = []
     for name, kind, members, lt in structs:
-        out.append('\tprint!(|:%s|, "\\n");' % name)
+        body.append('\tprint!(|:%s|, "\\n");' % name)
         queries.append(("|:%s|" % name, lt))
+        at = len(queries) - 1
         k = rng.below(5)
-        out.append('\tprint!(|:[%d]%s|, "\\n");' % (k, name))
+        body.append('\tprint!(|:[%d]%s|, "\\n");' % (k, name))
         queries.append(("|:[%d]%s|" % (k, name), "(arr %d %s)" % (k, lt)))
+        if rng.chance(1, 2):
+            # the same size as a constant, and as the length of a byte array inside another structure
+            consts.append("const SIZE_%s: usize = |:%s|;" % (name, name))
+            blocks.append("struct Raw_%s\n{\n\tbytes: [SIZE_%s]u8,\n}" % (name, name))
+            body.append('\tprint!(SIZE_%s, "\\n");' % name)
+            queries.append(("SIZE_%s" % name, ("same", at)))
+            body.append('\tvar raw_%s: Raw_%s;' % (name, name))
+            body.append('\tprint!(|raw_%s.bytes|, "\\n");' % name)
+            queries.append(("|raw_%s.bytes|" % name, ("same", at)))
+            body.append('\tprint!(|:Raw_%s|, "\\n");' % name)
+            queries.append(("|:Raw_%s|" % name, ("same", at)))
     for t in list(PRIMS) + ["bool"]:
         k = rng.below(9)
-        out.append('\tprint!(|:[%d]%s|, "\\n");' % (k, t))
+        body.append('\tprint!(|:[%d]%s|, "\\n");' % (k, t))
         queries.append(("|:[%d]%s|" % (k, t), "(arr %d %s)" % (k, "bool" if t == "bool" else "(int %d)" % PRIMS[t])))
-    out.append("}")
-    return "\n".join(out) + "\n", queries
+    decls = blocks + consts
+    for a in range(len(decls) - 1, 0, -1):
+        b = rng.below(a + 1)
+        decls[a], decls[b] = decls[b], decls[a]
+    main_at = rng.below(len(decls) + 1)
+    decls.insert(main_at, "fn main()\n{\n" + "\n".join(body) + "\n}")
+    return "\n".join(decls) + "\n", queries
 
 
 def main():
@@ -162,9 +195,11 @@ def main():
                 "model_request": "run\t" + progen.sx_prog(p), "implementation": ha[:1500], "model": ma[:1500]})
     samples.append(srcs[0][:600])
     # (c) sizes
-    for i in range(1500 if thorough else 60):
+    for i in range(3000 if thorough else 200):
         src, queries = sizes_program(rng.fork("c%d" % i))
-        exp = run_model(["sizeof\t" + lt for _, lt in queries])
+        direct = [(qi, lt) for qi, (_, lt) in enumerate(queries) if isinstance(lt, str)]
+        ans = dict(zip([qi for qi, _ in direct], run_model(["sizeof\t" + lt for _, lt in direct])))
+        exp = [ans[qi] if isinstance(lt, str) else ans[lt[1]] for qi, (_, lt) in enumerate(queries)]
         ha = runlib.impl_run([src])[0]
         io = runlib.impl_obs(ha)
         total += 1
@@ -187,7 +222,7 @@ def main():
                 "declared as `const` and as `var` in the same program, both printed; (b) arrays of every length 0..8 whose "
                 "length is read by name, through a view, a slice pointer, a view/slice pointer passed on, a pointer to the "
                 "array, and with a named constant as length; (c) random struct/word member lists (primitives, bool, pointers, "
-                "arrays, nested structures) printing |:S| and |:[k]S|, compared with the Lean layout model; "
+                "arrays with literal and NAMED lengths, nested structures; constants holding |:S| used as array lengths in turn; top-level declarations in shuffled order) printing |:S|, |:[k]S|, the constants and |x|, compared with the Lean layout model; "
                 "distinct = each program counted once",
         "traces_validated_against_impl": agreeing,
         "distribution": dict(dist),
